@@ -496,6 +496,16 @@ func c14Scenario(server string, nw, nr int, twoHandles bool, alloc bool, mid boo
 						}
 					}
 				}
+				if end == "replyfail" {
+					// the requests all arrived (only the replies are lost): every write sent before the close must have been carried out
+					for _, n := range names[:len(handles)] {
+						if got := r.fileContent(n); got != string(want[n]) {
+							v.Bad = fmt.Sprintf("session in which the peer has stopped receiving: final content of %s is %q, want %q (a write sent before the close was not carried out)", n, got, want[n])
+							v.Key = "c14-content"
+							return v
+						}
+					}
+				}
 				return v
 			}
 			if msg := r.orderOracle(true); msg != "" {
@@ -609,7 +619,7 @@ func c14Jobs(tier string) []reg.Job {
 						return x
 					}(),
 					func() reg.Job {
-						x := j("rs W=2 2w+2r, realpath, close: the peer has stopped receiving db3", "instr-w2", "rs", 2, 2, false, 3, 600)
+						x := j("rs W=2 3w+2r, realpath, close: the peer has stopped receiving db3", "instr-w2", "rs", 3, 2, false, 3, 600)
 						x.Args["end"], x.Args["mid"] = "replyfail", "1"
 						return x
 					}(),
@@ -657,7 +667,7 @@ func c14Jobs(tier string) []reg.Job {
 					return x
 				}(),
 				func() reg.Job {
-					x := j("rs W=2 2w+1r, realpath, close: the peer has stopped receiving db2", "instr-w2", "rs", 2, 1, false, 2, 100)
+					x := j("rs W=2 3w+1r, realpath, close: the peer has stopped receiving db2", "instr-w2", "rs", 3, 1, false, 2, 100)
 					x.Args["end"], x.Args["mid"] = "replyfail", "1"
 					return x
 				}(),
